@@ -80,11 +80,15 @@ def check_bmcid(rep, prog, fm):
         rep.fail(rule, q, "parsePelFromBmcID", "--bmc-id no longer decodes the matching PEL")
         return
     D = decs[0]
-    g = conj(fm.norm(D.guard))
+    gD = fm.norm(D.guard)
     match = None
-    for c in g:
-        if isinstance(c, Op) and c.op in ("eq", "in") and fm.arg("bmcID") in c.args:
-            match = c
+    # the comparison with the option value that the path to the decode implies (however the non-matching files are
+    # skipped: nested if, guard-clause continue, helper predicate)
+    for x in walk(gD):
+        if isinstance(x, Op) and x.op in ("eq", "ne", "in", "notin") and fm.arg("bmcID") in x.args:
+            for P in (x, not_(x)):
+                if isinstance(P, Op) and P.op in ("eq", "in") and match is None and implies(gD, P)[0]:
+                    match = P
     ok = False
     why = "no comparison with the option value found"
     if match is not None:
@@ -103,7 +107,7 @@ def check_bmcid(rep, prog, fm):
     # search continues past non-matching and failing files; stops only after a match
     L = D.loops[-1] if D.loops else None
     brks = [e for e in fm.events if e.kind == "break" and q in e.stack and L is not None and e.loops and e.loops[-1] is L]
-    okb = L is not None and all(match is not None and match in conj(fm.norm(b.guard)) for b in brks)
+    okb = L is not None and all(match is not None and implies(fm.norm(b.guard), match)[0] for b in brks)
     rep.check(okb, rule, "the file search stops only after the id matched", q, L.node if L else None,
               "the search can stop before the matching file is reached (break/handler not tied to the match)", node=L.node if L else None)
     # barrier inside the loop (a junk file earlier in the listing must not end the search)
@@ -147,7 +151,11 @@ def check_src(rep, prog, fm):
     stores = [e for e in fm.events if e.kind == "dict_store" and q in e.stack]
     inc = exc = None
     for e in stores:
-        for c in conj(fm.norm(e.guard)):
+        g_all = fm.norm(e.guard)
+        for c in conj(g_all):
+            # a value that is only bound on some paths (the exclude file's text): keep the alternative this path implies
+            if any(isinstance(x, Ite) for x in walk(c)):
+                c = pelx.specialise(c, g_all)
             if isinstance(c, Op) and c.op == "in" and c.args[0] == fm.arg("src"):
                 inc = (e, c)
             if isinstance(c, Op) and c.op == "notin" and isinstance(c.args[1], Op) and c.args[1].op == "m:read":
